@@ -2,6 +2,7 @@
 //! for validation against the TLA+ specifications in /verif/spec.
 
 mod common;
+mod crash;
 mod hist;
 mod simfs;
 mod trace;
@@ -188,6 +189,65 @@ fn cmd_hist(m: &HashMap<String, String>) -> i32 {
     0
 }
 
+fn cmd_crash(m: &HashMap<String, String>) -> i32 {
+    let out = PathBuf::from(m.get("out").cloned().unwrap_or_else(|| "out/crash".into()));
+    std::fs::create_dir_all(&out).unwrap();
+    let seed0: u64 = arg(m, "seed", 1);
+    let runs: u64 = arg(m, "runs", 2);
+    let ccfg = crash::CrashCfg {
+        torn: m.contains_key("torn"),
+        every: arg(m, "every", 1),
+        both_reuse: m.contains_key("both-reuse"),
+        gen2_every: arg(m, "gen2-every", 0),
+        threads: arg(m, "threads", 2),
+    };
+    let mut results = vec![];
+    for (idx, seed) in (seed0..seed0 + runs).enumerate() {
+        let mut cfg = hist_cfg_for(seed, m);
+        // crash workloads: writes, flushes, compactions, reopens; no long-lived read views
+        cfg.max_snaps = 0;
+        cfg.max_iters = 0;
+        cfg.nops = arg(m, "nops", 40);
+        if m.contains_key("large") {
+            cfg.big_values = true;
+        }
+        let mut rng = StdRng::seed_from_u64(seed ^ 0xabcdef);
+        let u = Arc::new(if cfg.adversarial_keys {
+            Universe::random(&mut rng, cfg.nkeys)
+        } else {
+            Universe::plain(cfg.nkeys)
+        });
+        let wd = Watchdog::start(
+            Duration::from_secs(arg(m, "deadline", 120)),
+            Box::new(move |what| {
+                eprintln!("hang in main crash workload: {}", what);
+                std::process::exit(4);
+            }),
+        );
+        let (mut lines, outcome, stats) = crash::run_crash(&cfg, &ccfg, &u, &wd, idx as u64 + 1);
+        wd.stop();
+        lines.push(json!({"e": "End", "i": 0, "t": "main"}));
+        let path = out.join(format!("trace_{:04}.ndjson", idx));
+        trace::write_ndjson(&path, &lines).unwrap();
+        let rpath = out.join(format!("replay_{}.json", cfg.seed));
+        let mut rp = serde_json::to_value(&outcome.replay).unwrap();
+        rp["driver"] = json!("crash");
+        std::fs::write(&rpath, serde_json::to_string(&rp).unwrap()).unwrap();
+        let mut r = serde_json::to_value(&outcome.result).unwrap();
+        r["trace"] = json!(path.to_string_lossy());
+        r["replay"] = json!(rpath.to_string_lossy());
+        r["cfg"] = serde_json::to_value(&cfg).unwrap();
+        r["crash"] = stats;
+        results.push(r);
+    }
+    std::fs::write(
+        out.join("results.json"),
+        serde_json::to_string_pretty(&json!({"runs": results, "aborted": false})).unwrap(),
+    )
+    .unwrap();
+    0
+}
+
 fn main() {
     install_panic_hook();
     let (cmd, m) = parse_args();
@@ -196,6 +256,7 @@ fn main() {
     }
     let code = match cmd.as_str() {
         "hist" => cmd_hist(&m),
+        "crash" => cmd_crash(&m),
         _ => {
             eprintln!("usage: rainverif <hist> [--seed N --runs N --out DIR ...]");
             2
